@@ -20,9 +20,9 @@ func init() {
 		Decides: "explanation faithfulness as an algebraic identity over the source expressions (narrow claim): for every scorer, the expression returned by Score/ScoreComposite and the value handed to the explanation returned by Explain/ExplainComposite are the same rational function of the scorer's fields and arguments (per branch, with the branch condition substituted); for every explanation whose message quotes a formula ('computed as <formula> from:') the formula, with its symbols bound to the children by the leading symbol of their messages, is the same rational function as the node's value, and a 'sum of:' node carries the sum over exactly the constituents whose explanations are its children; every searcher that builds a match assigns Score from the explanation's Value on the explain branch and from the scorer called with the same arguments otherwise. the children list of an explanation does not share its backing array with a field or package variable. the document frequency used for idf is not a stale value of a recycled iterator (C04.R5).",
 		NotCovered: "positivity, finiteness and monotonicity of the scores in the statistics (numeric), floating-point rounding (the identity is over the reals).",
 	})
-	registerRule(&RuleInfo{ID: "C17.R1", Title: "Score and Explain compute the same expression", Floor: 3, Run: ruleC17R1, Covers: "every Scorer / CompositeScorer implementation"})
+	registerRule(&RuleInfo{ID: "C17.R1", Title: "Score and Explain compute the same expression", Floor: 2, Run: ruleC17R1, Covers: "every Scorer / CompositeScorer implementation"})
 	registerRule(&RuleInfo{ID: "C17.R2", Title: "the formula quoted in an explanation message equals the node's value", Floor: 4, Run: ruleC17R2, Covers: "every NewExplanation call of package similarity with a 'computed as' or 'sum of' message"})
-	registerRule(&RuleInfo{ID: "C17.R3", Title: "searchers publish the explained value", Floor: 6, Run: ruleC17R3, Covers: "every function of search/searcher that branches on options.Explain"})
+	registerRule(&RuleInfo{ID: "C17.R3", Title: "searchers publish the explained value", Floor: 4, Run: ruleC17R3, Covers: "every function of search/searcher that branches on options.Explain"})
 }
 
 // scorerEnv builds an evaluation environment for methods of a scorer type, with the fields
@@ -628,6 +628,12 @@ func sameExpr(a, b ssa.Value, d int) bool {
 	case *ssa.FieldAddr:
 		y, ok := b.(*ssa.FieldAddr)
 		return ok && x.Field == y.Field && sameExpr(x.X, y.X, d+1)
+	case *ssa.IndexAddr:
+		y, ok := b.(*ssa.IndexAddr)
+		return ok && sameExpr(x.X, y.X, d+1) && sameExpr(x.Index, y.Index, d+1)
+	case *ssa.Const:
+		y, ok := b.(*ssa.Const)
+		return ok && x.Value != nil && y.Value != nil && x.Value.ExactString() == y.Value.ExactString() && types.Identical(x.Type(), y.Type())
 	case *ssa.Phi:
 		// the same variable at the same program point
 		return false
